@@ -398,7 +398,20 @@ func (c *Cluster) Records(topic string, id int32) []refcodec.Record {
 func (c *Cluster) Journal() []*Exchange {
 	c.mu.Lock()
 	defer c.mu.Unlock()
-	return append([]*Exchange{}, c.journal...)
+	out := make([]*Exchange, len(c.journal))
+	for i, ex := range c.journal {
+		cp := *ex
+		out[i] = &cp
+	}
+	return out
+}
+
+// upd changes a journal record under the cluster lock (handlers run
+// concurrently with tests reading the journal).
+func (c *Cluster) upd(f func()) {
+	c.mu.Lock()
+	f()
+	c.mu.Unlock()
 }
 
 // Violations lists protocol violations seen in client requests (malformed frames...).
@@ -480,8 +493,7 @@ func (c *Cluster) serve(b *Broker, sc *memnet.ServerConn) {
 		if saslCfg != nil && !st.authed && req.Err == nil && req.ApiKey != 17 && req.ApiKey != 18 && req.ApiKey != 36 {
 			// a request before authentication completed: journalled (C18 looks for it) and rejected as brokers do
 			ex := c.newExchange(req)
-			ex.Tag = "before-auth"
-			ex.Outcome = "closed"
+			c.upd(func() { ex.Tag, ex.Outcome = "before-auth", "closed" })
 			return
 		}
 		if !c.handle(b, sc, st, req) {
@@ -531,7 +543,7 @@ func (c *Cluster) handle(b *Broker, sc *memnet.ServerConn, st *connState, r *Req
 	ex := c.newExchange(r)
 	if r.Err != nil {
 		c.violation("conn %d seq %d: malformed request: %v (frame %x)", r.ConnID, r.Seq, r.Err, truncate(r.Raw, 200))
-		ex.Outcome = "closed"
+		c.upd(func() { ex.Outcome = "closed" })
 		return false
 	}
 	c.mu.Lock()
@@ -547,13 +559,12 @@ func (c *Cluster) handle(b *Broker, sc *memnet.ServerConn, st *connState, r *Req
 	if c.saslDrop(st, r) {
 		act.DropBeforeApply = true
 	}
-	ex.Tag = act.Tag
-	ex.ErrorCode = act.ErrorCode
+	c.upd(func() { ex.Tag, ex.ErrorCode = act.Tag, act.ErrorCode })
 	if act.Delay > 0 {
 		time.Sleep(act.Delay)
 	}
 	if act.DropBeforeApply {
-		ex.Outcome = "dropped-before"
+		c.upd(func() { ex.Outcome = "dropped-before" })
 		sc.MarkDead()
 		return false
 	}
@@ -561,21 +572,21 @@ func (c *Cluster) handle(b *Broker, sc *memnet.ServerConn, st *connState, r *Req
 	if act.Mutate != nil && body != nil {
 		act.Mutate(body)
 	}
-	ex.RespBody = body
+	c.upd(func() { ex.RespBody = body })
 	if act.BeforeRespond != nil {
 		act.BeforeRespond()
 	}
 	if !respond {
-		ex.Outcome = "no-response-expected"
+		c.upd(func() { ex.Outcome = "no-response-expected" })
 		return true
 	}
 	if act.DropResponse {
-		ex.Outcome = "dropped-after"
+		c.upd(func() { ex.Outcome = "dropped-after" })
 		sc.MarkDead()
 		return false
 	}
 	if act.NoResponse {
-		ex.Outcome = "no-response"
+		c.upd(func() { ex.Outcome = "no-response" })
 		// keep reading so that the client's writes do not block; never answer
 		return true
 	}
@@ -591,7 +602,6 @@ func (c *Cluster) handle(b *Broker, sc *memnet.ServerConn, st *connState, r *Req
 			panic(fmt.Sprintf("fakecluster: cannot encode %s v%d response: %v (body %v)", r.API.Name, r.Version, err, body))
 		}
 	}
-	ex.RespBytes = len(frame)
 	if act.Hold != nil {
 		<-act.Hold
 	}
@@ -605,21 +615,22 @@ func (c *Cluster) handle(b *Broker, sc *memnet.ServerConn, st *connState, r *Req
 		if k > len(frame) {
 			k = len(frame)
 		}
-		ex.Outcome = "cut"
-		ex.CutAt = k
+		if k < 0 {
+			k = 0
+		}
+		// the journal is final before the bytes leave: the client may act on them at once
+		c.upd(func() { ex.RespBytes, ex.Outcome, ex.CutAt, ex.AnsweredAt = len(frame), "cut", k, time.Now() })
 		sc.Write(frame[:k])
 		sc.Abort(act.Rst)
-		ex.AnsweredAt = time.Now()
 		// wait for the client to notice and close, so that the journal of this connection is complete
 		c.awaitClientClose(sc, 2*time.Second)
 		return false
 	}
+	c.upd(func() { ex.RespBytes, ex.Outcome, ex.AnsweredAt = len(frame), "answered", time.Now() })
 	if _, err := sc.Write(frame); err != nil {
-		ex.Outcome = "closed"
+		c.upd(func() { ex.Outcome = "closed" })
 		return false
 	}
-	ex.AnsweredAt = time.Now()
-	ex.Outcome = "answered"
 	return true
 }
 
